@@ -175,7 +175,7 @@ func (c *FieldBuildContext) GetNameWithTypeName() string {
 func (c *FieldBuildContext) GetName() string {
 	name := c.field.GetName()
 	if name[0:1] == strings.ToLower(name[0:1]) {
-		return strcase.UpperCamelCase(name)
+		return generator.CamelCase(name)
 	}
 	return name
 }
@@ -479,7 +479,7 @@ func (c *FieldBuildContext) GetOneOfFieldName() string {
 
 	name := c.desc.OneofDecl[*c.field.OneofIndex].GetName()
 	if name[0:1] == strings.ToLower(name[0:1]) {
-		return strcase.UpperCamelCase(name)
+		return generator.CamelCase(name)
 	}
 	return name
 }
